@@ -138,6 +138,13 @@ def run(tier):
     # copies the contents or changes a variant breaks "arrives identical" even though both sides still agree)
     from rules import c12
     c12.check_rows(ck)
+    # integer-coded results are one of the converted shapes: the four encode/decode helpers, the shipped error encodings, and the
+    # out-parameter plumbing of every generated int-result method (same rules as C13)
+    from rules import c13
+    fl = c13.check_helpers(ck)
+    c13.check_interr_impls(ck, fl, "cglue-lib", "cglue")
+    c13.check_plumbing(ck, model.Model(cf), "corpus")
+    c13.check_plumbing(ck, model.Model(ct, "cglue-test"), "cglue-tests")
     stats["result_payload_wrapped_inside_map"] = len(INNER_WRAPPED)
     ck.extra.update(stats)
     return ck.finish(
